@@ -34,7 +34,7 @@ func checkC05(w *World, r *Report) {
 // ---- C05.1 / C05.2 ----------------------------------------------------------------------------------------
 
 func checkC05Order(w *World, r *Report, p *Proto) {
-	ru := r.Rule("C05.1", "lock before load: in every function that acquires the writer lock, on the paths where it is acquired every load of the published tree comes after the acquire; the lock is acquired in one place", 2)
+	ru := r.Rule("C05.1", "lock before load: in every function that acquires the writer lock, on the paths where it is acquired every load of the published tree comes after the acquire; the lock is acquired in one place", 1)
 	locks := 0
 	for _, s := range p.sites(p.Mu) {
 		if s.name != "Lock" && s.name != "TryLock" && s.name != "RLock" {
@@ -68,26 +68,72 @@ func checkC05Order(w *World, r *Report, p *Proto) {
 	}
 	ru.Check("type of Router."+p.Mu.Name(), w.Pos(p.Mu.Pos()), "the writer lock is a sync.Mutex", isNamed(p.Mu.Type(), "sync", "Mutex"), p.Mu.Type().String())
 
-	ru2 := r.Rule("C05.2", "store before unlock: in Txn.Commit the atomic Store of the new tree precedes the Unlock on every path", 1)
+	ru2 := r.Rule("C05.2", "store before unlock: in Txn.Commit the atomic Store of the new tree precedes the Unlock on every path (a call of a helper that unlocks counts as the unlock)", 1)
 	commit := w.Method("Txn", "Commit")
-	var stores, unlocks []ssa.Instruction
+	// functions that (transitively, through static module calls) store the tree / release the lock
+	storers, unlockers := map[*ssa.Function]bool{}, map[*ssa.Function]bool{}
 	for _, s := range p.sites(p.Tree) {
-		if s.fn == commit && s.name == "Store" {
-			stores = append(stores, s.call)
+		if s.name == "Store" {
+			storers[s.fn] = true
 		}
 	}
 	for _, s := range p.sites(p.Mu) {
-		if s.fn == commit && s.name == "Unlock" {
-			unlocks = append(unlocks, s.call)
+		if s.name == "Unlock" {
+			unlockers[s.fn] = true
 		}
 	}
+	for _, set := range []map[*ssa.Function]bool{storers, unlockers} {
+		for changed := true; changed; {
+			changed = false
+			for _, fn := range w.FoxFuncs() {
+				if set[fn] {
+					continue
+				}
+				eachInstr(fn, func(in ssa.Instruction) {
+					if site, ok := in.(ssa.CallInstruction); ok {
+						if c := site.Common().StaticCallee(); c != nil && set[c] && !set[fn] {
+							set[fn] = true
+							changed = true
+						}
+					}
+				})
+			}
+		}
+	}
+	var stores, unlocks []ssa.Instruction
+	eachInstr(commit, func(in ssa.Instruction) {
+		site, ok := in.(ssa.CallInstruction)
+		if !ok {
+			return
+		}
+		args := callArgs(site)
+		obj := calleeObj(site)
+		if len(args) > 0 && obj != nil {
+			if _, f, ok := fieldOfAddr(args[0]); ok {
+				if f == p.Tree && obj.Name() == "Store" {
+					stores = append(stores, in)
+				}
+				if f == p.Mu && obj.Name() == "Unlock" {
+					unlocks = append(unlocks, in)
+				}
+			}
+		}
+		if c := site.Common().StaticCallee(); c != nil && c != commit {
+			if storers[c] {
+				stores = append(stores, in)
+			}
+			if unlockers[c] {
+				unlocks = append(unlocks, in)
+			}
+		}
+	})
 	if len(stores) == 0 || len(unlocks) == 0 {
 		ru2.Fail("Commit", w.Pos(commit.Pos()), "Commit stores then unlocks", fmt.Sprintf("%d Store, %d Unlock sites", len(stores), len(unlocks)))
 	}
 	for _, u := range unlocks {
 		ok := false
 		for _, s := range stores {
-			if mustPassThrough(commit, nil, s, u) && !instrReachableFrom(u, s) {
+			if s != u && mustPassThrough(commit, nil, s, u) && !instrReachableFrom(u, s) {
 				ok = true
 			}
 		}
@@ -98,7 +144,7 @@ func checkC05Order(w *World, r *Report, p *Proto) {
 // ---- C05.3 ------------------------------------------------------------------------------------------------
 
 func checkC05OneLoad(w *World, r *Report, p *Proto) {
-	ru := r.Rule("C05.3", "one load per read: no function obtains the published tree twice on one path or inside a loop (directly or through callees); a pooled context is returned to the pool of the tree it was taken from; a context's owner tree is recorded only at allocation", 10)
+	ru := r.Rule("C05.3", "one load per read: no function obtains the published tree twice on one path or inside a loop (directly or through callees); a pooled context is returned to the pool of the tree it was taken from; a context's owner tree is recorded only at allocation", 5)
 	for _, fn := range w.FoxFuncs() {
 		if isTestHelper(w, fn) {
 			continue
@@ -199,7 +245,7 @@ func poolGetOf(v ssa.Value) ssa.CallInstruction {
 // ---- C05.4 ------------------------------------------------------------------------------------------------
 
 func checkC05SharedState(w *World, r *Report, p *Proto) {
-	ru := r.Rule("C05.4", "shared state is read-only after publication: every store to a Router field happens in the constructor (on the Router it allocated) or in an option closure applied by the constructor; global options are applied only there; iTree fields are stored only while the tree is being built", 20)
+	ru := r.Rule("C05.4", "shared state is read-only after publication: every store to a Router field happens in the constructor (on the Router it allocated) or in an option closure applied by the constructor; global options are applied only there; iTree fields are stored only while the tree is being built", 10)
 	rst := p.Router.Underlying().(*types.Struct)
 	rfields := map[*types.Var]bool{}
 	for i := 0; i < rst.NumFields(); i++ {
@@ -310,7 +356,7 @@ func (p *Proto) releaseWrappers() map[*ssa.Function]bool {
 }
 
 func checkC05ContextOwner(w *World, r *Report, p *Proto) {
-	ru := r.Rule("C05.5", "pooled contexts have one owner: for every Get of a tree's context pool, on every path the context is released exactly once (Put, deferred Put/Close) or handed to the caller, never used after release and never dropped", 10)
+	ru := r.Rule("C05.5", "pooled contexts have one owner: for every Get of a tree's context pool, on every path the context is released exactly once (Put, deferred Put/Close) or handed to the caller, never used after release and never dropped", 5)
 	ru.Idiom("tree.ctx.Put(c) followed by return", "defer tree.ctx.Put(c)", "defer c.Close()", "return c (ownership passes to the caller as ContextCloser)")
 	wrappers := p.releaseWrappers()
 	nGets := 0
@@ -460,7 +506,7 @@ func checkC05ContextOwner(w *World, r *Report, p *Proto) {
 				orDefault(strings.Join(msgs, "; "), "every path releases once or returns the context"))
 		}
 	}
-	if nGets < 8 {
-		ru.Fail("Get sites", "-", "the pooled-context acquisitions of the package are found", fmt.Sprintf("only %d found", nGets))
+	if nGets < 5 {
+		r.Unrecognised("C05.5: only %d pooled-context acquisitions found", nGets)
 	}
 }
